@@ -19,6 +19,11 @@ OPTION_VALUES = {
     "piece-length": [None, "15", "32768"],
 }
 OPT_ORDER = list(OPTION_VALUES)
+# characters inside a value (never at its ends) that one of the routes might
+# take for structure
+SPECIAL_MID = ["\x0b", "\x0c", "\x1c", "\x1d", "\x1e", "\x85", "\u2028",
+               "\u2029", "=", ":", ";", "#", " ; ", " # ", "'", '"', ",",
+               "\t", "  ", "[x]", "--private", "\\n", "\u00e9"]
 LISTY = {"announce", "web-seed", "http-seed"}
 FLAG = {"announce": "--announce", "web-seed": "--web-seed",
         "http-seed": "--http-seed", "private": "--private",
@@ -157,7 +162,7 @@ class OptionsCheck:
         gs = []
         for version in ("1", "2", "3"):
             for align in ((False, True) if version == "1" else (False,)):
-                for outform in ("file", "dir"):
+                for outform in ("file", "dir", "inside"):
                     for a in range(len(OPTION_VALUES["announce"])):
                         for wsi in range(len(OPTION_VALUES["web-seed"])):
                             gs.append({"version": version, "align": align,
@@ -165,6 +170,8 @@ class OptionsCheck:
                                        "seed": seed, "tier": tier})
         for version in ("1", "2", "3"):
             gs.append({"kind": "env", "version": version, "seed": seed,
+                       "tier": tier})
+            gs.append({"kind": "values", "version": version, "seed": seed,
                        "tier": tier})
         return gs
 
@@ -176,6 +183,15 @@ class OptionsCheck:
         os.mkdir(outdir)
         if outform == "file":
             outarg = os.path.join(outdir, "x.torrent")
+            expect = outarg
+        elif outform == "inside":
+            # the output file lies inside the content directory (a private
+            # copy of the payload, so that routes do not see each other's
+            # output)
+            import shutil
+            root = shutil.copytree(root, os.path.join(outdir,
+                                                      world.ROOT_NAME))
+            outarg = os.path.join(root, "x.torrent")
             expect = outarg
         else:
             outarg = outdir + os.sep
@@ -412,11 +428,66 @@ class OptionsCheck:
                     shutil.rmtree(os.path.join(sandbox, n), ignore_errors=True)
         return res
 
+    def run_values(self, g, res, only=None):
+        """One option at a time with values whose characters mean something to
+        one of the routes (line-boundary characters other than LF, `=`, `:`,
+        `;`, `#`, quotes, option-like and boolean-like words)."""
+        import shutil
+        seed, version = g["seed"], g["version"]
+        sandbox = world.fresh_dir()
+        root = world.materialize(payload(seed), os.path.join(sandbox, "p"))
+        for o in ("announce", "web-seed", "http-seed", "comment", "source"):
+            for mid in SPECIAL_MID:
+                if o in LISTY:
+                    val = [f"http://h/a{mid}b", "http://second/"]
+                else:
+                    val = f"x{mid}y"
+                opts = {k: None for k in OPT_ORDER}
+                opts[o] = val
+                case = {"kind": "values", "opts": opts, "version": version,
+                        "align": False, "out": "file", "seed": seed}
+                if only is not None and only["opts"] != opts:
+                    continue
+                check = expected_fields(opts, version, False)
+                outs = {}
+                for route in ("kw", "cli", "config", "config-B"):
+                    outs[route] = self.run_route(
+                        route.split("-")[0], opts, version, False, "file",
+                        root, sandbox,
+                        style=route[-1] if "-" in route else "A")
+                    res.transitions += 1
+                    res.evals += 1
+                    res.validated += 1
+                res.states += 1
+                ref = outs["kw"]
+                for route, (st, raw) in outs.items():
+                    probs = []
+                    if st != "ok":
+                        probs.append(st)
+                    else:
+                        probs += check(normalise(raw))
+                        if ref[0] == "ok" and normalise(raw) != \
+                                normalise(ref[1]):
+                            probs.append("differs-from-keyword-route")
+                    res.outcomes["values:" + (probs[0] if probs else
+                                              "ok")] += 1
+                    for pr in probs:
+                        res.violation(
+                            f"C20|{route}|{pr}|v{version}|special-value:{o}",
+                            dict(case, route=route), repr(mid))
+                for n in os.listdir(sandbox):
+                    if n.startswith("out"):
+                        shutil.rmtree(os.path.join(sandbox, n),
+                                      ignore_errors=True)
+        return res
+
     def run_group(self, g):
         res = core.Result()
         seed = g["seed"]
         if g.get("kind") == "env":
             return self.run_env(g, res)
+        if g.get("kind") == "values":
+            return self.run_values(g, res)
         sandbox = world.fresh_dir()
         root = world.materialize(payload(seed), os.path.join(sandbox, "p"))
         version, align, outform = g["version"], g["align"], g["out"]
@@ -496,6 +567,13 @@ class OptionsCheck:
         return res
 
     def replay(self, case):
+        if case.get("kind") == "values":
+            res = self.run_values({"seed": case["seed"],
+                                   "version": case["version"]}, core.Result(),
+                                  only=case)
+            return [{"sig": v["sig"], "detail": v["detail"]}
+                    for v in res.violations
+                    if v["case"].get("route") == case.get("route")]
         if case.get("kind") == "env":
             res = self.run_env({"seed": case["seed"],
                                 "version": case["version"]}, core.Result())
